@@ -2226,6 +2226,15 @@ func (c *Conn) handleIncomingPacket(
 
 	r := &recordlayer.RecordLayer{}
 	if err := r.Unmarshal(prepared.buf); err != nil {
+		if prepared.header.Epoch == 0 || prepared.header.ContentType == protocol.ContentTypeChangeCipherSpec {
+			// Nothing vouches for an unprotected record (no cipher suite
+			// authenticates a ChangeCipherSpec): an invalid one is silently
+			// discarded [RFC6347 Section-4.1.2.7].
+			c.log.Debugf("discarded broken record: %v", err)
+
+			return packetOutcome{}, nil
+		}
+
 		return packetOutcome{
 			responseAlert: &alert.Alert{Level: alert.Fatal, Description: alert.DecodeError},
 		}, err
